@@ -47,13 +47,30 @@ def gen_ops(tier, r):
         ops.append(("top", f"count {s0} {e0} 16 {r.choice([1, 3])} {r.choice([0, 30030])}"))
     # many pieces ending at the very top: the raw end of the last piece saturates at 2^64-1 (align / checkedAdd at
     # the limit).  (dist - 1) % td >= 33 keeps the overridden piece length inside the envelope proved in C09.
-    for _ in range(12 if q else 120):
+    import math
+    cores = os.cpu_count() or 1
+    n_top = 0
+    while n_top < (12 if q else 120):
         md = r.choice([60, 90, 120, 300, 3000])
         t = r.choice([2, 3, 4, 8])
         k = r.randrange(2, 12)
         rem = r.randrange(34, md)
         e0 = r.choice([UMAX, UMAX, UMAX - r.randrange(1, 40)])
-        ops.append(("top-dense", f"count {e0 - (md * k + rem)} {e0} 16 {t} {md} nosqrt"))
+        s0 = e0 - (md * k + rem)
+        # the piece length the code will use (ParallelSieve::getThreadDistance with the override); at stop = 2^64-1 a last
+        # piece starting within 32 of stop would make `align(start) + 1` wrap (outside the envelope proved in C09 and not
+        # reachable with the production piece length), so such combinations are not generated
+        dist = e0 - s0
+        threads = max(1, min(dist // md, min(t, cores)))
+        if threads > 1:
+            fastest = min(math.isqrt(e0) * 200, dist // threads)
+            iters = max((dist // fastest) // threads * threads, threads)
+            td = max((dist - 1) // iters + 1, md)
+            td += 30 - td % 30
+            if (dist - 1) % td < 40:
+                continue
+        ops.append(("top-dense", f"count {s0} {e0} 16 {t} {md} nosqrt"))
+        n_top += 1
     # the largest sieve size with EratBig engaged: multipleIndex needs all 23 bits (one 8 MiB segment = 2.5e8 numbers)
     ops.append(("max-sieve-size", f"count {10**15 + r.randrange(0, 10**6)} {10**15 + 10**6 + r.randrange(0, 10**6)} 8192 1 0"))
     # more than one segment below 2^64-1 (16 KiB sieve = 491520 numbers per segment)
